@@ -478,7 +478,10 @@ impl OsIpcSender {
                 len as socklen_t,
             ) < 0
             {
-                return Err(UnixError::last());
+                let error = UnixError::last();
+                // Nobody else knows about the socket yet: don't leak it.
+                libc::close(fd);
+                return Err(error);
             }
 
             Ok(OsIpcSender::from_fd(fd))
